@@ -963,7 +963,7 @@ class _MayBeInt:
 
 def _kind_int_handled(model, f, pname, seen):
     if f.qualname in seen:
-        return (None, "recursive delegation", None)
+        return (True, "recursive call (same analysis applies)", None)
     seen = seen | {f.qualname}
     kinds = _isinstance_kinds(f, pname)
     mb = _MayBeInt(f, pname)
